@@ -254,7 +254,7 @@ def run_union_matrix(ctx, quick):
                 chain(ctx, m, proto, vals, "bin", [(a, "ndjson"), (b, "bin")], "union-matrix %s set %d" % (proto.name, k), {"matrix": True, "set": k})
                 ctx.count("unionmatrix.chains")
 
-    pmap(one, [p for p in pkg.protocols() if p.name != "MxGenericNullable"], workers=6)
+    pmap(one, pkg.protocols(), workers=6)
     m.close()
 
 
